@@ -13,6 +13,12 @@
 // Expected verdicts (valid / VerifyBlock ok) come from the TLC row; the driver
 // decides nothing. The sets of failing checks are compared as well and reported
 // in the evidence.
+//
+// Histories (second argument): the cases of one history are shown, in order, to
+// ONE HeaderValidator instance (a node keeps its validator), each built and
+// decoded exactly like a single case; every step must get the verdict the
+// specification gives it (invariant HistoryIrrelevant: that of a fresh
+// validator).
 package main
 
 import (
@@ -46,6 +52,12 @@ import (
 
 	"verifharness/vh"
 )
+
+type histRow struct {
+	Layout     string `json:"layout"`
+	Steps      []row  `json:"steps"`
+	CertReplay bool   `json:"certreplay"`
+}
 
 type row struct {
 	Layout  string `json:"layout"`
@@ -410,11 +422,69 @@ func (w *world) opCert(cold coldKey, hot []byte, seq, period uint32) *consensus.
 		Signature: ed25519.Sign(cold.priv, common.OpCertSignableBytes(hot, uint64(seq), uint64(period)))}
 }
 
+// prepared is a case as the receiving node holds it: the decoded block and the
+// filled ValidateHeaderInput (nil when the builder or the decoder refused).
+type prepared struct {
+	res  *result
+	dump map[string]any
+	blk  ledger.Block
+	vin  *consensus.ValidateHeaderInput
+}
+
+func newValidator(e eraCfg, n netCfg) *consensus.HeaderValidator {
+	mode := consensus.ConsensusModeCPraos
+	if e.layout == "tpraos" {
+		mode = consensus.ConsensusModeTPraos
+	}
+	return consensus.NewHeaderValidatorWithMode(consensus.NetworkConfig{
+		ActiveSlotCoeff: common.GenesisRat{Rat: big.NewRat(1, 1)}, SlotsPerKESPeriod: n.spk, MaxKESEvolutions: n.maxEvol}, mode)
+}
+
+// the node's ledger view: the pool of cold key 0 is registered with VRF key 0
+func (w *world) ledgerState() common.LedgerState {
+	regCold, regVrf := blake2b224(w.cold[0].pub), blake2b.Sum256(w.vrfS[0].PublicKey())
+	return mockledger.NewLedgerStateBuilder().WithPoolRegistrations([]common.PoolRegistrationCertificate{{
+		CertType: uint(common.CertificateTypePoolRegistration), Operator: common.NewBlake2b224(regCold),
+		VrfKeyHash: common.NewBlake2b256(regVrf[:])}}).Build()
+}
+
+// runCase validates one case on a fresh validator.
 func (w *world) runCase(r *row, e eraCfg, n netCfg) (*result, map[string]any, error) {
+	p, err := w.prepare(r, e, n)
+	if err != nil {
+		return nil, nil, err
+	}
+	if p.vin != nil {
+		w.validate(newValidator(e, n), w.ledgerState(), p, n)
+	}
+	return p.res, p.dump, nil
+}
+
+// validate shows a prepared case to a validator instance (and to VerifyBlock with the given ledger state).
+func (w *world) validate(validator *consensus.HeaderValidator, ls common.LedgerState, p *prepared, n netCfg) {
+	res := p.res
+	vr := validator.ValidateHeader(p.vin)
+	res.Valid, res.Checks = vr.Valid, checksOf(vr.Errors)
+	res.Errors = nil
+	for _, e := range vr.Errors {
+		res.Errors = append(res.Errors, e.Error())
+	}
+	ok, _, _, _, verr := ledger.VerifyBlock(p.blk, hex.EncodeToString(w.nonce), n.spk,
+		common.VerifyConfig{SkipTransactionValidation: true, LedgerState: ls})
+	res.VbOk = ok && verr == nil
+	res.VbErr, res.VbCheck = "", 0
+	if verr != nil {
+		res.VbErr, res.VbCheck = verr.Error(), vbCheckOf(verr)
+	} else if !ok {
+		res.VbCheck = 99
+	}
+}
+
+func (w *world) prepare(r *row, e eraCfg, n netCfg) (*prepared, error) {
 	res := &result{Stage: "build"}
 	cur, honestT, err := offPeriods(r.Off, n)
 	if err != nil {
-		return nil, nil, err
+		return nil, err
 	}
 	slot := cur*n.spk + 2
 	prevSlot := slot - 2
@@ -459,21 +529,21 @@ func (w *world) runCase(r *row, e eraCfg, n netCfg) (*result, map[string]any, er
 			cert = w.opCert(cold, hotPub, seq, uint32(n.opPeriod))
 		case "vrfKey:unregistered":
 			vrfSigner = w.vrfS[1]
-		case "vrfProof:flip", "nonceProof:flip":
+		case "vrfProof:flip", "nonceProof:flip", "opSig:flip":
 		default:
-			return nil, nil, fmt.Errorf("unknown insider mutation %q", mut)
+			return nil, fmt.Errorf("unknown insider mutation %q", mut)
 		}
 	}
 	signer, err := w.hot[0].signerAt(signerT)
 	if err != nil {
-		return nil, nil, fmt.Errorf("KES signer at period %d: %w", signerT, err)
+		return nil, fmt.Errorf("KES signer at period %d: %w", signerT, err)
 	}
 	poolID := blake2b224(cold.pub)
 	builder := consensus.NewBlockBuilderWithMode(vrfSigner, signer, cert, poolID, cold.pub, big.NewRat(1, 1), mode)
 	hdr, _, err := builder.BuildHeader(in)
 	if err != nil {
 		res.BuildErr = err.Error()
-		return res, nil, nil
+		return &prepared{res: res}, nil
 	}
 	b := hdr.Body // mutations work on a copy of the slices they change
 	sig := hdr.Signature
@@ -484,6 +554,8 @@ func (w *world) runCase(r *row, e eraCfg, n netCfg) (*result, map[string]any, er
 			b.VrfProof, resign = flip(w.rng, b.VrfProof), true
 		case "nonceProof:flip":
 			b.NonceVrfProof, resign = flip(w.rng, b.NonceVrfProof), true
+		case "opSig:flip":
+			b.OpCertSignature, resign = flip(w.rng, b.OpCertSignature), true
 		}
 	}
 	if r.Regime == "tamper" {
@@ -519,11 +591,11 @@ func (w *world) runCase(r *row, e eraCfg, n netCfg) (*result, map[string]any, er
 				msg, err = vrf.MkInputVrf(int64(slot-1), w.nonce)
 			}
 			if err != nil {
-				return nil, nil, err
+				return nil, err
 			}
 			p, _, err := vrfSigner.Prove(msg)
 			if err != nil {
-				return nil, nil, err
+				return nil, err
 			}
 			b.VrfProof = p
 		case "vrfOut:flip":
@@ -559,38 +631,38 @@ func (w *world) runCase(r *row, e eraCfg, n netCfg) (*result, map[string]any, er
 		case "kesSig:otherperiod":
 			s2, err := w.hot[0].signerAt(honestT + 1)
 			if err != nil {
-				return nil, nil, err
+				return nil, err
 			}
 			raw, err := headerBodyCbor(&b, e.layout)
 			if err != nil {
-				return nil, nil, err
+				return nil, err
 			}
 			if sig, err = s2.Sign(raw); err != nil {
-				return nil, nil, err
+				return nil, err
 			}
 		case "kesSig:otherbody":
 			b2 := b
 			b2.BlockNumber--
 			raw, err := headerBodyCbor(&b2, e.layout)
 			if err != nil {
-				return nil, nil, err
+				return nil, err
 			}
 			if sig, err = signer.Sign(raw); err != nil {
-				return nil, nil, err
+				return nil, err
 			}
 		case "body:other":
 			segs = segs2
 		default:
-			return nil, nil, fmt.Errorf("unknown tamper mutation %q", mut)
+			return nil, fmt.Errorf("unknown tamper mutation %q", mut)
 		}
 	}
 	rawBody, err := headerBodyCbor(&b, e.layout)
 	if err != nil {
-		return nil, nil, err
+		return nil, err
 	}
 	if resign {
 		if sig, err = signer.Sign(rawBody); err != nil {
-			return nil, nil, err
+			return nil, err
 		}
 	}
 	hdrBytes := headerCbor(rawBody, sig)
@@ -605,17 +677,17 @@ func (w *world) runCase(r *row, e eraCfg, n netCfg) (*result, map[string]any, er
 	bt, err := ledger.DetermineBlockType(hdrBytes)
 	if err != nil {
 		res.DecodeErr = err.Error()
-		return res, dump, nil
+		return &prepared{res: res, dump: dump}, nil
 	}
 	blk, err := ledger.NewBlockFromCbor(bt, blkBytes, common.VerifyConfig{SkipBodyHashValidation: true})
 	if err != nil {
 		res.DecodeErr = err.Error()
-		return res, dump, nil
+		return &prepared{res: res, dump: dump}, nil
 	}
 	res.Stage = "validated"
 	vin, err := headerInput(blk.Header())
 	if err != nil {
-		return nil, nil, err
+		return nil, err
 	}
 	vin.PrevSlot, vin.PrevBlockNumber, vin.PrevHeaderHash, vin.EpochNonce = prevSlot, w.prevBlock, w.prevHash, w.nonce
 	vin.TotalStake = w.totalStake
@@ -623,25 +695,7 @@ func (w *world) runCase(r *row, e eraCfg, n netCfg) (*result, map[string]any, er
 	if bytes.Equal(blake2b224(vin.IssuerVkey), regCold) { // the node's view of the issuing pool
 		vin.PoolStake, vin.RegisteredVrfKeyHash = w.poolStake, regVrf[:]
 	}
-	validator := consensus.NewHeaderValidatorWithMode(consensus.NetworkConfig{
-		ActiveSlotCoeff: common.GenesisRat{Rat: big.NewRat(1, 1)}, SlotsPerKESPeriod: n.spk, MaxKESEvolutions: n.maxEvol}, mode)
-	vr := validator.ValidateHeader(vin)
-	res.Valid, res.Checks = vr.Valid, checksOf(vr.Errors)
-	for _, e := range vr.Errors {
-		res.Errors = append(res.Errors, e.Error())
-	}
-	ls := mockledger.NewLedgerStateBuilder().WithPoolRegistrations([]common.PoolRegistrationCertificate{{
-		CertType: uint(common.CertificateTypePoolRegistration), Operator: common.NewBlake2b224(regCold),
-		VrfKeyHash: common.NewBlake2b256(regVrf[:])}}).Build()
-	ok, _, _, _, verr := ledger.VerifyBlock(blk, hex.EncodeToString(w.nonce), n.spk,
-		common.VerifyConfig{SkipTransactionValidation: true, LedgerState: ls})
-	res.VbOk = ok && verr == nil
-	if verr != nil {
-		res.VbErr, res.VbCheck = verr.Error(), vbCheckOf(verr)
-	} else if !ok {
-		res.VbCheck = 99
-	}
-	return res, dump, nil
+	return &prepared{res: res, dump: dump, blk: blk, vin: vin}, nil
 }
 
 func blake2b224(b []byte) []byte {
@@ -653,11 +707,17 @@ func blake2b224(b []byte) []byte {
 func main() {
 	rep := vh.NewReporter()
 	if len(os.Args) < 2 {
-		rep.Dead("usage: c40 cases.ndjson")
+		rep.Dead("usage: c40 cases.ndjson [histories.ndjson]")
 	}
 	rows, err := vh.ReadNDJSON[row](os.Args[1])
 	if err != nil || len(rows) == 0 {
 		rep.Dead("cases: %v (%d rows)", err, len(rows))
+	}
+	var hists []histRow
+	if len(os.Args) > 2 {
+		if hists, err = vh.ReadNDJSON[histRow](os.Args[2]); err != nil || len(hists) == 0 {
+			rep.Dead("histories: %v (%d rows)", err, len(hists))
+		}
 	}
 	w, err := newWorld(vh.Seed())
 	if err != nil {
@@ -674,6 +734,52 @@ func main() {
 	decodeRejects := map[string]int{}
 	sampled := map[string]bool{}
 	honestValid := 0
+	// judge compares what the code said about one case (on a fresh validator: pfx "", as a step of a
+	// history: pfx "history:") with the specification's row.
+	judge := func(key string, r *row, res *result, replay map[string]any) {
+		pfx := ""
+		if strings.HasPrefix(key, "hist=") {
+			pfx = "history:"
+		}
+		if res.Stage == "build" {
+			// the builder refused; a produced header is demanded only where the spec says it is valid
+			stats[pfx+"builder_refused"]++
+			if r.Regime == "none" || r.Valid || r.VbOk {
+				rep.Disagree(key+":at=build", "BlockBuilder.BuildHeader failed: "+res.BuildErr, replay)
+			}
+			return
+		}
+		if res.Stage == "decode" {
+			decodeRejects[pfx+r.Mut]++
+			if r.Valid || r.VbOk {
+				rep.Disagree(key+":at=decode", "the produced header/block does not decode: "+res.DecodeErr, replay)
+			}
+			return
+		}
+		if pfx == "" && r.Regime == "none" && r.Valid && res.Valid && res.VbOk {
+			honestValid++
+		}
+		if res.Valid != r.Valid {
+			rep.Disagree(key+":at=header", fmt.Sprintf("ValidateHeader: valid=%v (failing checks %v %v); the specification says valid=%v (failing checks %v)",
+				res.Valid, res.Checks, res.Errors, r.Valid, r.Fails), replay)
+		} else if !same(res.Checks, r.Fails) {
+			setMismatch[pfx+r.Regime+":"+r.Mut]++
+			if len(setExample) < 6 {
+				setExample = append(setExample, fmt.Sprintf("%s: code %v spec %v", key, res.Checks, r.Fails))
+			}
+		} else {
+			stats[pfx+"failing_check_sets_equal"]++
+		}
+		if res.VbOk != r.VbOk {
+			rep.Disagree(key+":at=block", fmt.Sprintf("VerifyBlock: ok=%v (check %d: %s); the specification says ok=%v (first failing check %d)",
+				res.VbOk, res.VbCheck, res.VbErr, r.VbOk, r.VbFirst), replay)
+		} else if res.VbCheck != r.VbFirst {
+			setMismatch[pfx+"verifyblock:"+r.Regime+":"+r.Mut]++
+			if len(setExample) < 6 {
+				setExample = append(setExample, fmt.Sprintf("%s: VerifyBlock first failing check %d (%s), spec %d", key, res.VbCheck, res.VbErr, r.VbFirst))
+			}
+		}
+	}
 	for idx := range rows {
 		r := &rows[idx]
 		es := byLayout[r.Layout]
@@ -707,43 +813,9 @@ func main() {
 				rep.Case(key, true)
 				replay["inputs"], replay["code"] = dump, res
 				stats[r.Regime+":spec_valid="+fmt.Sprint(r.Valid)+":spec_vbok="+fmt.Sprint(r.VbOk)]++
-				if res.Stage == "build" {
-					// the builder refused; a produced header is demanded only where the spec says it is valid
-					stats["builder_refused"]++
-					if r.Regime == "none" || r.Valid || r.VbOk {
-						rep.Disagree(key+":at=build", "BlockBuilder.BuildHeader failed: "+res.BuildErr, replay)
-					}
+				judge(key, r, res, replay)
+				if res.Stage != "validated" {
 					return
-				}
-				if res.Stage == "decode" {
-					decodeRejects[r.Mut]++
-					if r.Valid || r.VbOk {
-						rep.Disagree(key+":at=decode", "the produced header/block does not decode: "+res.DecodeErr, replay)
-					}
-					return
-				}
-				if r.Regime == "none" && r.Valid && res.Valid && res.VbOk {
-					honestValid++
-				}
-				if res.Valid != r.Valid {
-					rep.Disagree(key+":at=header", fmt.Sprintf("ValidateHeader: valid=%v (failing checks %v %v); the specification says valid=%v (failing checks %v)",
-						res.Valid, res.Checks, res.Errors, r.Valid, r.Fails), replay)
-				} else if !same(res.Checks, r.Fails) {
-					setMismatch[r.Regime+":"+r.Mut]++
-					if len(setExample) < 6 {
-						setExample = append(setExample, fmt.Sprintf("%s: code %v spec %v", key, res.Checks, r.Fails))
-					}
-				} else {
-					stats["failing_check_sets_equal"]++
-				}
-				if res.VbOk != r.VbOk {
-					rep.Disagree(key+":at=block", fmt.Sprintf("VerifyBlock: ok=%v (check %d: %s); the specification says ok=%v (first failing check %d)",
-						res.VbOk, res.VbCheck, res.VbErr, r.VbOk, r.VbFirst), replay)
-				} else if res.VbCheck != r.VbFirst {
-					setMismatch["verifyblock:"+r.Regime+":"+r.Mut]++
-					if len(setExample) < 6 {
-						setExample = append(setExample, fmt.Sprintf("%s: VerifyBlock first failing check %d (%s), spec %d", key, res.VbCheck, res.VbErr, r.VbFirst))
-					}
 				}
 				if sk := r.Regime + "/" + r.Field; !sampled[sk] && len(sampled) < 5 && (r.Regime != "none" || r.Off == "max") {
 					sampled[sk] = true
@@ -753,6 +825,76 @@ func main() {
 			})
 		}
 	}
+	// ---- histories: several cases shown to ONE validator instance, in order -------------------
+	// (VerifyBlock gets one ledger state per history as well). Every step must get the verdict
+	// of its row, which TLC has shown to be the verdict of a fresh validator.
+	histSteps, histCertReplay := 0, 0
+	histSampled := 0
+	for idx := range hists {
+		h := &hists[idx]
+		es := byLayout[h.Layout]
+		if len(es) == 0 || len(h.Steps) < 2 {
+			rep.Dead("history %d: layout %q, %d steps", idx, h.Layout, len(h.Steps))
+		}
+		var names []string
+		for i := range h.Steps {
+			st := &h.Steps[i]
+			if st.Layout != h.Layout {
+				rep.Dead("history %d: step %d has layout %q", idx, i+1, st.Layout)
+			}
+			names = append(names, st.Regime+"/"+st.Mut+"@"+st.Off)
+		}
+		type combo struct {
+			e eraCfg
+			n netCfg
+		}
+		var combos []combo
+		// quick: one era of the layout and one set of network parameters per history (rotated);
+		// thorough: every era, network parameters rotated
+		if thorough {
+			for ei, e := range es {
+				combos = append(combos, combo{e, nets[(idx+ei+int(vh.Seed()))%len(nets)]})
+			}
+		} else {
+			k := idx + int(vh.Seed())
+			combos = append(combos, combo{es[k%len(es)], nets[(k/len(es))%len(nets)]})
+		}
+		for _, c := range combos {
+			key := fmt.Sprintf("hist=%s:layout=%s:era=%s:net=%s", strings.Join(names, ">"), h.Layout, c.e.name, c.n.name)
+			replay := map[string]any{"key": key, "history": h}
+			rep.Guard(key, replay, func() {
+				validator, ls := newValidator(c.e, c.n), w.ledgerState()
+				rep.Case(key, true)
+				stats[fmt.Sprintf("history:steps=%d:certreplay=%v", len(h.Steps), h.CertReplay)]++
+				if h.CertReplay {
+					histCertReplay++
+				}
+				var codes []*result
+				var dumps []map[string]any
+				replay["inputs"], replay["code"] = &dumps, &codes
+				for i := range h.Steps {
+					st := &h.Steps[i]
+					p, err := w.prepare(st, c.e, c.n)
+					if err != nil {
+						rep.Dead("%s: step %d: %v", key, i+1, err)
+					}
+					if p.vin != nil {
+						w.validate(validator, ls, p, c.n)
+					}
+					histSteps++
+					codes, dumps = append(codes, p.res), append(dumps, p.dump)
+					judge(fmt.Sprintf("%s:step=%d", key, i+1), st, p.res, replay)
+				}
+				if h.CertReplay && histSampled < 2 && len(codes) == 2 && codes[1].Stage == "validated" {
+					histSampled++
+					rep.Sample(map[string]any{"key": key, "spec_valid_per_step": []bool{h.Steps[0].Valid, h.Steps[1].Valid},
+						"code_valid_per_step": []bool{codes[0].Valid, codes[1].Valid}, "code_failing_checks_last_step": codes[1].Checks})
+				}
+			})
+		}
+	}
+	rep.Extra["c40_histories_on_one_validator"] = map[string]any{"histories": len(hists), "steps_validated": histSteps,
+		"histories_replaying_a_certificate_tuple_under_another_cold_signature": histCertReplay}
 	// honestValid == 0 cannot pass silently: every honest in-window row that is
 	// not accepted by both validators has been reported as a disagreement above
 	// (the property demands that produced headers validate).
@@ -761,7 +903,7 @@ func main() {
 	rep.Extra["c40_failing_check_set_differs_from_spec_same_verdict"] = setMismatch
 	rep.Extra["c40_failing_check_set_examples"] = setExample
 	rep.Extra["c40_mutated_blocks_rejected_by_the_decoder"] = decodeRejects
-	rep.Extra["c40_observation_points"] = "consensus.BlockBuilder.BuildHeader -> era wire format -> ledger.DetermineBlockType / NewBlockFromCbor -> " +
+	rep.Extra["c40_observation_points"] = "(histories: the same HeaderValidator instance and ledger state for all steps) consensus.BlockBuilder.BuildHeader -> era wire format -> ledger.DetermineBlockType / NewBlockFromCbor -> " +
 		"consensus.HeaderValidator.ValidateHeader (Valid, Errors) and ledger.VerifyBlock (pool registration on, transactions skipped: the block is empty)"
 	rep.Extra["c40_not_judged"] = []string{
 		"which error VerifyBlock returns and the exact set of ValidateHeader errors (compared with the spec, differences listed above, not a verdict)",
